@@ -92,6 +92,11 @@ pub struct RunConfig {
     /// Overheads handed to divan: sample_loop, tally_alloc, tally_dealloc,
     /// tally_realloc (picoseconds).
     pub overheads: [u128; 4],
+    /// Virtual ticks the one-off measurement of those overheads takes (the
+    /// real `Timer::bench_overheads()` measures on first use and caches per
+    /// process): spent, and logged as a `Mark` event, by the first request
+    /// for the overheads in a run.
+    pub overhead_measure_ticks: u64,
     pub watchdog: Duration,
     pub name: &'static str,
     /// Per-run harness context reachable from any simulated thread (also
@@ -129,6 +134,7 @@ impl Default for RunConfig {
             faults: FaultPlan::default(),
             precision_override: None,
             overheads: [0; 4],
+            overhead_measure_ticks: 0,
             watchdog: Duration::from_secs(20),
             name: "run",
             user: None,
@@ -324,6 +330,8 @@ pub struct State {
     pub(crate) main_panic: Option<String>,
     pub(crate) precision_override: Option<u128>,
     pub(crate) overheads: [u128; 4],
+    pub(crate) overhead_measure_ticks: u64,
+    pub(crate) overheads_measured: bool,
     pub(crate) user: Option<Arc<dyn std::any::Any + Send + Sync>>,
     pub(crate) precision_reads: u64,
     pub(crate) monitor: Option<Arc<dyn Monitor>>,
@@ -927,6 +935,8 @@ pub fn run(cfg: RunConfig, main: Box<dyn FnOnce() + Send>) -> RunResult {
         main_panic: None,
         precision_override: cfg.precision_override,
         overheads: cfg.overheads,
+        overhead_measure_ticks: cfg.overhead_measure_ticks,
+        overheads_measured: false,
         user: cfg.user.clone(),
         precision_reads: 0,
         monitor: cfg.monitor.clone(),
